@@ -76,11 +76,11 @@ def generate(ctx):
     if ctx.thorough:
         cases += [("chains3", t) for t in chains3]
     else:
-        cases += [("chains3", t) for t in rng.sample(chains3, 2500)]
-    for _ in range(ctx.pick(1200, 25000)):
+        cases += [("chains3", t) for t in rng.sample(chains3, 1200)]
+    for _ in range(ctx.pick(600, 15000)):
         k = rng.choice([4, 4, 5])
         cases.append(("chains%d" % k, T.chain([rng.choice(T.CHAIN_STEPS) for _ in range(k)])))
-    for _ in range(ctx.pick(1500, 30000)):
+    for _ in range(ctx.pick(1000, 20000)):
         odd = 0.08 if rng.random() < 0.25 else 0.0
         cases.append(("random", T.rand_expr(rng, rng.choice([2, 3, 4, 4, 5, 6]), odd)))
     # corpus: witnesses of the known findings and earlier minimal failures run first
@@ -173,14 +173,24 @@ def run(ctx):
     # replay the witnesses of the open findings (also when the generators did not hit them)
     replay_known(ctx, env)
     # ------------------------------------------------------------------ model vs implementation
-    disagree = []
+    disagree, nonstd = [], []
     if model_usable:
         coq_cases = [T.coq_case(t, r) for (_, t), r in zip(uniq, results)]
         t0 = time.time()
-        disagree = ctx.coq_eval_failing(HEADER, "case", "agrees_impl", coq_cases, shard=ctx.pick(650, 1200), timeout=900)
-        ctx.log("model/implementation: %d cases evaluated by coqc in %.1fs, %d disagreements"
-                % (len(coq_cases), time.time() - t0, len(disagree)))
+        shard = max(400, -(-len(coq_cases) // (4 * ctx.pick(1, 10))))
+        strict_bad = ctx.coq_eval_failing(HEADER, "case", "agrees_strict_impl", coq_cases, shard=shard, timeout=1800)
+        if strict_bad:
+            # which of them are real disagreements, which only non-standard text the reader accepted
+            sub = ctx.coq_eval_failing(HEADER, "case", "agrees_impl", [coq_cases[i] for i in strict_bad],
+                                       shard=3000, timeout=1800)
+            disagree = [strict_bad[j] for j in sub]
+            nonstd = [i for i in strict_bad if i not in set(disagree)]
+        ctx.log("model/implementation: %d cases evaluated by coqc in %.1fs, %d disagreements, %d with text "
+                "outside the standard grammar that the reader accepted" % (len(coq_cases), time.time() - t0,
+                                                                           len(disagree), len(nonstd)))
         ctx.cov["disagreements_checked"] = len(disagree)
+        if report_nonstandard(ctx, uniq, results, nonstd):
+            concrete = True
         gbad = grammar_cases(ctx, env)
     else:
         gbad = []
@@ -212,11 +222,20 @@ def _model_builds(ctx):
 
 
 def minimal_key(env, t):
-    """shrink a failing tree and classify the minimal one"""
-    small = T.shrink(t, lambda c: not env.roundtrip(c)["impl_ok"])
+    """shrink a failing tree, keeping its failure mode (text the reader refuses / a different tree),
+    and classify the minimal one"""
+    unreadable = env.roundtrip(t)["reread"] is None
+
+    def fails(c):
+        r = env.roundtrip(c)
+        return (not r["impl_ok"]) and ((r["reread"] is None) == unreadable)
+    small = T.shrink(t, fails)
     rs = sorted(set(T.reasons(small)))
     if len(rs) == 1:
-        return small, rs[0]
+        key = rs[0]
+        if key == T.K_SIGN and unreadable:
+            key = T.K_SIGN_BAD      # the sign ends up directly after a binary operator
+        return small, key
     return small, "unclassified/%s" % ("+".join(rs) if rs else "no-known-shape")
 
 
@@ -231,7 +250,10 @@ def classify_and_report(ctx, env, uniq, results, failing):
     for rs, idxs in sorted(groups.items()):
         idxs.sort(key=lambda i: T.size(uniq[i][1]))
         ctx.hist("failure_class", "+".join(rs) if rs else "no-known-shape", len(idxs))
-        todo = idxs[:3] if rs else idxs[:8]
+        # a few per failure mode (text refused by the reader / different tree), all if unexplained
+        bad_text = [i for i in idxs if results[i]["reread"] is None]
+        other = [i for i in idxs if results[i]["reread"] is not None]
+        todo = (bad_text[:2] + other[:2]) if rs else idxs[:8]
         for i in todo:
             small, key = minimal_key(env, uniq[i][1])
             res = env.roundtrip(small)
@@ -243,6 +265,24 @@ def classify_and_report(ctx, env, uniq, results, failing):
             what = "tree %s is written '%s' and read back as %s" % (
                 T.show(small), res["text"], T.show(res["reread"]) if res["reread"] else "an error (%s)" % res["error"])
             if ctx.finding(key, what, replay):
+                reported = True
+    return reported
+
+
+def report_nonstandard(ctx, uniq, results, nonstd):
+    """trees whose written text is not in the Fortran grammar although fparser2 read it back:
+    the property asks for standard-conforming text.  By the partial theorem such a tree contains
+    one of the known shapes; each shape present is reported under its key."""
+    reported = False
+    for i in nonstd[:6]:
+        t = uniq[i][1]
+        rs = sorted(set(T.reasons(t))) or ["unclassified/non-standard-text"]
+        ctx.hist("failure_class", "non-standard-text:" + "+".join(rs))
+        for key in rs:
+            if ctx.finding(key, "tree %s is written '%s', which is not in the Fortran 2008 expression grammar"
+                           % (T.show(t), results[i]["text"]),
+                           {"property": "C02", "tree": T.show(t), "tree_json": jsonable(t),
+                            "written": results[i]["text"], "why": "model grammar rejects the text; fparser2 accepts it"}):
                 reported = True
     return reported
 
@@ -264,8 +304,8 @@ def grammar_cases(ctx, env):
     """model grammar vs fparser2 (through FortranReader) on random operator strings"""
     rng = ctx.rng("grammar")
     items, seen = [], set()
-    for _ in range(ctx.pick(900, 12000)):
-        text, toks = T.rand_tokens(rng, rng.choice([1, 2, 2, 3]))
+    for _ in range(ctx.pick(350, 5000)):
+        text, toks = T.rand_tokens(rng, rng.choice(ctx.pick([1, 1, 2, 2], [1, 2, 2, 3])))
         if text in seen:
             continue
         seen.add(text)
@@ -273,8 +313,8 @@ def grammar_cases(ctx, env):
         items.append((text, toks, enc, err))
     coq = ["(%s, %s)" % (core.coq_list(toks), "None" if enc is None else "(Some %s)" % T.coq_expr(enc))
            for _, toks, enc, _ in items]
-    bad = ctx.coq_eval_failing(HEADER, "gcase", "gagrees", coq, shard=1500, timeout=900)
-    lenient = ctx.coq_eval_failing(HEADER, "gcase", "gstrict", coq, shard=1500, timeout=900)
+    bad = ctx.coq_eval_failing(HEADER, "gcase", "gagrees", coq, shard=4000, timeout=1800)
+    lenient = ctx.coq_eval_failing(HEADER, "gcase", "gstrict", coq, shard=4000, timeout=1800) if ctx.thorough else []
     accepted = sum(1 for it in items if it[2] is not None)
     ctx.cov["evaluations"] += len(items)
     ctx.hist("grammar_strings", "accepted-by-fparser2", accepted)
